@@ -7,7 +7,8 @@ literal text, every builder state `st` the parse starts in) parsing the rendered
 yields exactly the normal form `specK m st`: the declared values, the schema defaults for
 what is omitted, references interned and immediates stored in document order.
 -/
-import CamVerif.Proofs.C17Kinds
+import CamVerif.Proofs.C17Struct
+import CamVerif.Proofs.C17Resolve
 namespace CamVerif.C17
 open CamVerif CamVerif.XmlParse
 variable {F : Type} [FloatLit F]
@@ -16,7 +17,7 @@ variable {F : Type} [FloatLit F]
 def parseElem (pr : Profile) (e : Elem) (st : St F) : R (List (NodeData F) × St F) :=
   match e with
   | .node tag attrs children =>
-    (pNodeDatas pr (Elem.depthList children + 1) tag attrs children [] st).bind
+    (pNodeDatas pr (Elem.depthList children + 1) tag attrs children children st).bind
       fun r => .ok (r.1, r.2.2)
   | _ => .panic
 
@@ -41,31 +42,273 @@ theorem elem_base (m : ElemM) (inv : List Str) (rest : List Seg) (st : St F)
 
 theorem parse_render_Node (pr : Profile) (m : NodeM) (st : St F) :
     parseElem pr m.render st = .ok ([.node (specNode m st).1], (specNode m st).2) := by
-  simp [parseElem, NodeM.render, pNodeDatas, onChild, P.bind_def, pPlainNode_render]
+  simp [parseElem, NodeM.render, pNodeDatas, P.bind_def, pPlainNode_render]
   rfl
 
 theorem parse_render_Category (pr : Profile) (m : CategoryM) (st : St F) :
     parseElem pr m.render st = .ok ([.category (specCategory m st).1], (specCategory m st).2) := by
-  simp [parseElem, CategoryM.render, pNodeDatas, onChild, P.bind_def, pCategory_render]
+  simp [parseElem, CategoryM.render, pNodeDatas, P.bind_def, pCategory_render]
   rfl
 
 theorem parse_render_Command (pr : Profile) (m : CommandM) (st : St F) :
     parseElem pr m.render st = .ok ([.command (specCommand m st).1], (specCommand m st).2) := by
-  simp [parseElem, CommandM.render, pNodeDatas, onChild, P.bind_def, pCommand_render]
+  simp [parseElem, CommandM.render, pNodeDatas, P.bind_def, pCommand_render]
   rfl
 
 theorem parse_render_Boolean (pr : Profile) (m : BooleanM) (st : St F) :
     parseElem pr m.render st = .ok ([.boolean (specBoolean m st).1], (specBoolean m st).2) := by
-  simp [parseElem, BooleanM.render, pNodeDatas, onChild, P.bind_def, pBoolean_render, pure_apply]
+  simp [parseElem, BooleanM.render, pNodeDatas, P.bind_def, pBoolean_render, pure_apply]
 
 theorem parse_render_Integer (pr : Profile) (m : IntegerM) (st : St F) :
     parseElem pr m.render st = .ok ([.integer (specInteger m st).1], (specInteger m st).2) := by
-  simp [parseElem, IntegerM.render, pNodeDatas, onChild, P.bind_def, pInteger_render, pure_apply]
+  simp [parseElem, IntegerM.render, pNodeDatas, P.bind_def, pInteger_render, pure_apply]
+
+theorem parse_render_IntSwissKnife (pr : Profile) (m : IntSwissKnifeM F) (st : St F) :
+    parseElem pr m.render st =
+      .ok ([.intSwissKnife (specIntSwissKnife m st).1], (specIntSwissKnife m st).2) := by
+  simp [parseElem, IntSwissKnifeM.render, pNodeDatas, P.bind_def, pIntSwissKnife_render,
+    pure_apply]
+
+/-- register base (`Streamable`, address particles, `Length|pLength`, `AccessMode`, `pPort`,
+`Cachable`, `PollingTime`, `pInvalidator*`) in front of kind-specific children: defaults not
+streamable / `RO` / `WriteThrough`. -/
+theorem reg_base (pr : Profile) (m : RegM) (rest : List Seg) (st : St F)
+    (h : noneStart regTags rest = true) :
+    pRegBase pr (flat (m.segs ++ rest)) st =
+      .ok ((specReg m st).1, flat rest, (specReg m st).2) :=
+  pRegBase_segs pr m rest st h
+
+theorem parse_render_IntReg (pr : Profile) (m : IntRegM) (st : St F) :
+    parseElem pr m.render st = .ok ([.intReg (specIntReg m st).1], (specIntReg m st).2) := by
+  simp [parseElem, IntRegM.render, pNodeDatas, P.bind_def, pIntReg_render, pure_apply]
+
+theorem parse_render_MaskedIntReg (pr : Profile) (m : MaskedM) (st : St F) :
+    parseElem pr m.render st = .ok ([.maskedIntReg (specMasked m st).1], (specMasked m st).2) := by
+  simp [parseElem, MaskedM.render, pNodeDatas, P.bind_def, pMaskedIntReg_render,
+    pure_apply]
+
+theorem parse_render_StringReg (pr : Profile) (m : PlainRegM) (st : St F) :
+    parseElem pr (m.render cs!"StringReg") st =
+      .ok ([.stringReg (specPlainReg m st).1], (specPlainReg m st).2) := by
+  simp [parseElem, PlainRegM.render, pNodeDatas, P.bind_def, pPlainReg_render, pure_apply]
+
+theorem parse_render_Register (pr : Profile) (m : PlainRegM) (st : St F) :
+    parseElem pr (m.render cs!"Register") st =
+      .ok ([.register (specPlainReg m st).1], (specPlainReg m st).2) := by
+  simp [parseElem, PlainRegM.render, pNodeDatas, P.bind_def, pPlainReg_render, pure_apply]
+
+/-- `StructReg`: one `MaskedIntReg` node per `StructEntry`, each the merge of what the entry
+declares with the structure's register base, invalidators registered per merged node. -/
+theorem parse_render_StructReg (pr : Profile) (m : StructM) (st : St F) :
+    parseElem pr m.render st =
+      .ok ((specStruct m st).1.map .maskedIntReg, (specStruct m st).2) := by
+  simp [parseElem, StructM.render, pNodeDatas, P.bind_def, pStructReg_children,
+    intoMaskedIntRegs_eq, specStruct, pure_apply]
+
+/-! ## references resolve -/
+
+/-- `get_or_intern` hands out an id that resolves to the name in every later builder state
+(the interner only grows): the basis of all `refs_resolve` statements. -/
+theorem refs_resolve_intern (n : Str) (st st' : St F) (h : (internS n st).2.le st') :
+    nameOf st' (internS n st).1 = n :=
+  (internS_spec n st st' h).1
+
+/-- Every reference and every default of a parsed `MaskedIntReg`, read through the interner
+of any later builder state, is the declared name / the declared or default value. -/
+theorem refs_resolve_MaskedIntReg (pr : Profile) (m : MaskedM) (st st' : St F)
+    (h : (specMasked m st).2.le st') :
+    ∃ n stN, parseElem pr m.render st = .ok ([.maskedIntReg n], stN) ∧ stN.le st' ∧
+      n.view st' = pureMasked m :=
+  ⟨_, _, parse_render_MaskedIntReg pr m st, h, (specMasked_view m st st' h).1⟩
+
+/-! ## StructReg = the equivalent set of MaskedIntReg -/
+
+/-- parse a sequence of sibling elements, threading the builder state -/
+def parseElems (pr : Profile) : List Elem → St F → R (List (NodeData F) × St F)
+  | [], st => .ok ([], st)
+  | e :: es, st =>
+    (parseElem pr e st).bind fun r =>
+      (parseElems pr es r.2).bind fun r2 => .ok (r.1 ++ r2.1, r2.2)
+
+private theorem parseElems_twins (pr : Profile) (ms : List MaskedM) (st : St F) :
+    parseElems pr (ms.map MaskedM.render) st =
+      .ok ((listS specMasked ms st).1.map .maskedIntReg, (listS specMasked ms st).2) := by
+  induction ms generalizing st with
+  | nil => rfl
+  | cons m ms ih => simp [parseElems, parse_render_MaskedIntReg, ih, listS]
+
+/-- `struct_desugar`: parsing a `StructReg` and parsing its twin — one `MaskedIntReg` per
+entry where the entry's declared properties override and all others are inherited from the
+structure (including `pError`, `pInvalidator`, and explicitly declared default values) —
+yield the same nodes when read through their interners: both are the pure normal forms of the
+twin declarations. -/
+theorem struct_desugar (pr : Profile) (s : StructM) (st : St F) :
+    ∃ (nodes : List MaskedIntRegNode) (stS : St F) (nodesT : List MaskedIntRegNode) (stT : St F),
+      parseElem pr s.render st = .ok (nodes.map .maskedIntReg, stS) ∧
+      parseElems pr (s.entries.map fun e => (twin s e).render) st =
+        .ok (nodesT.map .maskedIntReg, stT) ∧
+      nodes.map (MaskedIntRegNode.view stS) = s.entries.map (fun e => pureMasked (twin s e)) ∧
+      nodesT.map (MaskedIntRegNode.view stT) = s.entries.map (fun e => pureMasked (twin s e)) := by
+  refine ⟨(specStruct s st).1, (specStruct s st).2,
+    (listS specMasked (s.entries.map (twin s)) st).1, (listS specMasked (s.entries.map (twin s)) st).2,
+    parse_render_StructReg pr s st, ?_, ?_, ?_⟩
+  · have := parseElems_twins pr (s.entries.map (twin s)) st
+    simpa [List.map_map, Function.comp_def] using this
+  · -- the StructReg side
+    have hnames := maskedOfEntries_names (specReg s.reg st).1 (s.endianness.getD .le)
+      (listS specEntry s.entries (specReg s.reg st).2).1
+      (listS specEntry s.entries (specReg s.reg st).2).2
+    have hle : (listS specEntry s.entries (specReg s.reg st).2).2.le (specStruct s st).2 :=
+      ⟨[], by simp [specStruct, hnames]⟩
+    obtain ⟨hE, hR⟩ := listS_resolves specEntry_resolves s.entries _ _ hle
+    obtain ⟨hReg, _⟩ := specReg_view s.reg st _ hR
+    simp only [specStruct, maskedOfEntries_fst, List.map_map] at hE ⊢
+    have : ∀ e : StructEntryNode,
+        (MaskedIntRegNode.view (specStruct s st).2 ∘
+          fun e => e.toMasked (specReg s.reg st).1 (s.endianness.getD .le)) e =
+        toMaskedV (e.view (specStruct s st).2) (pureReg s.reg) (s.endianness.getD .le) := by
+      intro e
+      simp [toMasked_view, hReg]
+    simp only [specStruct] at this
+    rw [List.map_congr_left (fun e _ => this e)]
+    have h2 : ∀ (S : St F) (L : List StructEntryNode),
+        L.map (fun e => toMaskedV (e.view S) (pureReg s.reg) (s.endianness.getD .le)) =
+        (L.map (StructEntryNode.view S)).map
+          (fun v => toMaskedV v (pureReg s.reg) (s.endianness.getD .le)) := by
+      intro S L; simp [List.map_map, Function.comp_def]
+    rw [h2, hE]
+    simp [List.map_map, Function.comp_def, toMaskedV_pure]
+  · -- the twin side: `refs_resolve` of every twin
+    have hres : Resolves (F := F) specMasked MaskedIntRegNode.view pureMasked :=
+      fun m st st' h => specMasked_view m st st' h
+    have := (listS_resolves hres (s.entries.map (twin s)) st _ (St.le_refl _)).1
+    simpa [List.map_map, Function.comp_def] using this
+
+/-! ## Group = its members declared in place -/
+
+/-- `parseElem` with the nesting fuel explicit (`parseElem pr e = parseElemF pr (depth e) e`) -/
+def parseElemF (pr : Profile) (fuel : Nat) : Elem → St F → R (List (NodeData F) × St F)
+  | .node tag attrs children, st =>
+    (pNodeDatas pr fuel tag attrs children children st).bind fun r => .ok (r.1, r.2.2)
+  | _, _ => .panic
+
+/-- the members one after the other, threading the builder state, node lists concatenated -/
+def parseElemsF (pr : Profile) (fuel : Nat) : List Elem → St F → R (List (NodeData F) × St F)
+  | [], st => .ok ([], st)
+  | e :: es, st =>
+    (parseElemF pr fuel e st).bind fun r =>
+      (parseElemsF pr fuel es r.2).bind fun r2 => .ok (r.1 ++ r2.1, r2.2)
+
+def AllElems : List Elem → Prop
+  | [] => True
+  | .node _ _ _ :: r => AllElems r
+  | _ :: _ => False
+
+theorem parseElem_eq_parseElemF (pr : Profile) (tag : Str) (attrs : List (Str × Str))
+    (children : List Elem) (st : St F) :
+    parseElem pr (.node tag attrs children) st =
+      parseElemF pr (Elem.depthList children + 1) (.node tag attrs children) st := rfl
+
+private theorem pGroupChildren_members (pr : Profile) (fuel : Nat) (es : List Elem)
+    (h : AllElems es) (n : Nat) (hn : es.length + 1 ≤ n) (st : St F) :
+    pGroupChildren pr fuel n es st =
+      (parseElemsF pr fuel es st).bind fun r => .ok (r.1, [], r.2) := by
+  induction es generalizing n st with
+  | nil =>
+    cases n with
+    | zero => omega
+    | succ n => simp [pGroupChildren, P.bind_def, next, skipJunk, parseElemsF, pure_apply]
+  | cons e es ih =>
+    cases n with
+    | zero => omega
+    | succ n =>
+      cases e with
+      | node tag attrs children =>
+        have hn' : es.length + 1 ≤ n := by simp at hn; omega
+        have h' : AllElems es := by simpa [AllElems] using h
+        simp only [pGroupChildren, P.bind_def, next, skipJunk, Res.bind_ok', parseElemsF,
+          parseElemF, onChild_def]
+        cases hp : pNodeDatas pr fuel tag attrs children children st with
+        | ok r =>
+          simp only [Res.bind_ok', ih h' n hn']
+          cases parseElemsF pr fuel es r.2.2 <;> simp [pure_apply]
+        | err e => rfl
+        | panic => rfl
+      | text s => exact absurd h (by simp [AllElems])
+      | comment s => exact absurd h (by simp [AllElems])
+      | pi => exact absurd h (by simp [AllElems])
+
+/-- `group_flat`: a `Group` yields exactly the node data of its members parsed one after the
+other in place (same builder-state threading, same order), whatever its attributes. -/
+theorem group_flat (pr : Profile) (fuel : Nat) (attrs : List (Str × Str)) (es : List Elem)
+    (h : AllElems es) (st : St F) :
+    parseElemF pr (fuel + 2) (.node cs!"Group" attrs es) st = parseElemsF pr (fuel + 1) es st := by
+  simp only [parseElemF, pNodeDatas]
+  simp [pGroupChildren_members pr (fuel + 1) es h (es.length + 1) (Nat.le_refl _) st]
+  cases parseElemsF pr (fuel + 1) es st <;> simp
 
 /-! ## literals -/
 
 /-- whatever `convert_to_int` accepts is taken as an immediate by the `ImmOrPNode` sniffing -/
 theorem literals_int_is_immediate (s : Str) (v : Int) (h : convertToInt s = .ok v) :
     firstIsAlphabetic s = .ok false := convertToInt_first s v h
+
+/-- decimal form: every `i64` value is read back exactly -/
+theorem literals_dec (n : Int) (h1 : I64_MIN ≤ n) (h2 : n ≤ I64_MAX) :
+    convertToInt (decInt n) = .ok n := by
+  unfold decInt
+  split
+  · next hneg =>
+    have hp := parseDigits_natDigits10 n.natAbs
+    rw [convertToInt_noPrefix '-' _ (Or.inl (by decide))]
+    have habs : (n.natAbs : Int) = -n := by omega
+    simp only [parseI64, hp, habs]
+    simp only [I64_MIN] at h1 ⊢
+    simp [h1, ofOpt]
+  · next hpos =>
+    have habs : (n.natAbs : Int) = n := by omega
+    have := convertToInt_natDigits n.natAbs (by rw [habs]; exact h2)
+    rw [this, habs]
+
+/-- `0x` / `0X` prefix with lower- or upper-case digits: read back exactly -/
+theorem literals_hex (upperPrefix upperDigits : Bool) (n : Nat) (h : (n : Int) ≤ I64_MAX) :
+    convertToInt (hexNat upperPrefix upperDigits n) = .ok (n : Int) := by
+  cases upperPrefix <;> simp [hexNat, convertToInt, parseI64_hex upperDigits n h, ofOpt]
+
+/-- unsigned fields (`PollingTime`, `Bit`, `LSB`, `MSB`, version numbers): decimal form -/
+theorem literals_uint_dec (n : Nat) (h : n ≤ U64_MAX) :
+    convertToUint (natDigits 10 false n) = .ok n := convertToUint_natDigits n h
+
+/-- … and hexadecimal forms, up to `u64::MAX` -/
+theorem literals_uint_hex (upperPrefix upperDigits : Bool) (n : Nat) (h : n ≤ U64_MAX) :
+    convertToUint (hexNat upperPrefix upperDigits n) = .ok n := by
+  cases upperPrefix <;> simp [hexNat, convertToUint, parseU64_hex upperDigits n h, ofOpt]
+
+/-- bare hexadecimal (`EventID`, `ChunkID`) -/
+theorem literals_bare_hex (upperDigits : Bool) (n : Nat) (h : n ≤ U64_MAX) :
+    parseU64 16 (natDigits 16 upperDigits n) = some n := parseU64_hex upperDigits n h
+
+/-- the four boolean spellings, and nothing else -/
+theorem literals_bool (s : Str) :
+    convertToBoolOpt s =
+      if s = cs!"Yes" ∨ s = cs!"true" then some true
+      else if s = cs!"No" ∨ s = cs!"false" then some false else none := rfl
+
+theorem literals_bool_forms :
+    convertToBoolOpt cs!"Yes" = some true ∧ convertToBoolOpt cs!"true" = some true ∧
+    convertToBoolOpt cs!"No" = some false ∧ convertToBoolOpt cs!"false" = some false := by
+  decide
+
+/-- float specials: `INF` and `-INF` are the infinities; every other text (incl. `NaN`) goes
+unchanged to `str::parse::<f64>`; all three specials are immediates for the sniffing although
+two start with a letter. -/
+theorem literals_float_specials :
+    convertToFloat (F := F) cs!"INF" = .ok FloatLit.inf ∧
+    convertToFloat (F := F) cs!"-INF" = .ok FloatLit.negInf ∧
+    (∀ s : Str, s ≠ cs!"INF" → s ≠ cs!"-INF" →
+      convertToFloat (F := F) s = ofOpt (FloatLit.parse s)) := by
+  refine ⟨rfl, rfl, ?_⟩
+  intro s h1 h2
+  simp [convertToFloat, h1, h2]
 
 end CamVerif.C17
